@@ -896,11 +896,14 @@ impl<'a> Interp<'a> {
         let mut size: Option<u128> = None;
         if kind == K_REJECT_ASK {
             let lots = remaining / inc;
+            // whole lots strictly inside the remainder; when the remainder is off the lot grid
+            // (after a non-lot fill) taking every whole lot still leaves something behind
+            let max_lots = if remaining % inc != 0 { lots } else { lots.saturating_sub(1) };
             size = match weighted(w[3], &[35, 65]) {
                 0 => None,
                 _ => {
-                    if lots >= 2 {
-                        Some((1 + ((w[9] as u128 * (lots - 1)) >> 32)) * inc)
+                    if max_lots >= 1 {
+                        Some((1 + ((w[9] as u128 * max_lots) >> 32).min(max_lots - 1)) * inc)
                     } else {
                         Some(remaining.max(1))
                     }
@@ -945,11 +948,14 @@ impl<'a> Interp<'a> {
         let mut size: Option<u128> = None;
         if kind == K_REJECT_BID {
             let lots = remaining / inc;
+            // whole lots strictly inside the remainder; when the remainder is off the lot grid
+            // (after a non-lot fill) taking every whole lot still leaves something behind
+            let max_lots = if remaining % inc != 0 { lots } else { lots.saturating_sub(1) };
             size = match weighted(w[3], &[30, 70]) {
                 0 => None,
                 _ => {
-                    if lots >= 2 {
-                        Some((1 + ((w[9] as u128 * (lots - 1)) >> 32)) * inc)
+                    if max_lots >= 1 {
+                        Some((1 + ((w[9] as u128 * max_lots) >> 32).min(max_lots - 1)) * inc)
                     } else {
                         Some(remaining.max(1))
                     }
@@ -1095,20 +1101,26 @@ impl<'a> Interp<'a> {
             ch.executors = Some(v);
         }
         if mask & 4 != 0 {
-            let (r, a) = match (&cfg.ask_fee, pick(w[4], 5)) {
+            let (r, a) = match (&cfg.ask_fee, pick(w[4], 7)) {
                 (Some((a, r)), 0) => (respell(r, w[8]), a.clone()),
                 (Some((_, r)), 1) => (respell(r, w[8]), POOL[3 + pick(w[8], 5)].to_string()),
                 (_, 2) => (String::new(), String::new()),
+                // half-empty pairs: the installed rate (respelled) with an empty account, an
+                // empty rate with an account
+                (Some((_, r)), 5) => (respell(r, w[8]), String::new()),
+                (Some((a, _)), 6) => (String::new(), a.clone()),
                 (_, _) => (rate_from(w[8], w[9], false), POOL[3 + pick(w[9], 5)].to_string()),
             };
             ch.ask_fee_rate = Some(r);
             ch.ask_fee_account = Some(a);
         }
         if mask & 8 != 0 {
-            let (r, a) = match (&cfg.bid_fee, pick(w[4].rotate_left(7), 5)) {
+            let (r, a) = match (&cfg.bid_fee, pick(w[4].rotate_left(7), 7)) {
                 (Some((a, r)), 0) => (respell(r, w[8]), a.clone()),
                 (Some((_, r)), 1) => (respell(r, w[8]), POOL[3 + pick(w[8], 5)].to_string()),
                 (_, 2) => (String::new(), String::new()),
+                (Some((_, r)), 5) => (respell(r, w[8]), String::new()),
+                (Some((a, _)), 6) => (String::new(), a.clone()),
                 (_, _) => (rate_from(w[8].rotate_left(5), w[9], false), POOL[3 + pick(w[9], 5)].to_string()),
             };
             ch.bid_fee_rate = Some(r);
